@@ -474,3 +474,32 @@ def recognition_for_every_kind(ctx: Ctx) -> None:
       "soft one (seeded change C15-9)", floor=2)
 def r10_every_kind(ctx: Ctx) -> None:
     recognition_for_every_kind(ctx)
+
+
+@rule("C06", "R11.every-listed-rectangle-added", "LOOP-COVER",
+      "the module the recognition looks at has every rectangle its description lists, repeated ones included (two equal "
+      "rectangles overlap: not an orthogon): in parse_yaml_module the loop over the parsed rectangles adds each one -- the "
+      "add_rectangle call is an unconditional statement of the loop body and nothing before it can skip an iteration or "
+      "leave the loop (seeded change C06-9)", floor=1)
+def r11_every_rectangle(ctx: Ctx) -> None:
+    from .common import YREAD
+    f = ctx.func(YREAD, "parse_yaml_module")
+    n = 0
+    for loop in walk_own(f.node):
+        if not isinstance(loop, ast.For):
+            continue
+        adds = [c for c in ast.walk(loop) if isinstance(c, ast.Call) and isinstance(c.func, ast.Attribute) and c.func.attr == "add_rectangle"]
+        if not adds:
+            continue
+        n += 1
+        ctx.site(f.where, "every parsed rectangle is added to the module", loop=norm_stmt(loop)[:60])
+        top = [i for i, st in enumerate(loop.body) if isinstance(st, ast.Expr) and any(c in adds for c in ast.walk(st))]
+        if not top:
+            ctx.report(f.where, "conditional-add", f"{f.qualname}: add_rectangle is not an unconditional statement of the loop over the listed rectangles",
+                       lineno=loop.lineno)
+            continue
+        for st in loop.body[:top[0]]:
+            if any(isinstance(x, (ast.Continue, ast.Break, ast.Return)) for x in ast.walk(st)):
+                ctx.report(f.where, f"skipped-rectangle {norm_stmt(st)[:50]}", f"{f.qualname}: an iteration of the loop over the listed rectangles can end before "
+                           f"add_rectangle ('{norm_stmt(st)[:60]}'): a listed rectangle is dropped", lineno=st.lineno)
+    ctx.require(n >= 1, "parse_yaml_module: loop adding the parsed rectangles not found")
